@@ -210,6 +210,7 @@ type PolyCtx struct {
 	copyMemo       map[*ssa.Alloc]*copyEntry
 	storePaths     map[string]bool
 	lenDepth       int
+	res            *sccpResult // when set: the function is analysed under these constant assumptions
 	busyStorePaths bool
 	// LoadAt optionally pins the interpretation of loads: "entry" symbols for loads not reached by any store
 }
@@ -746,6 +747,20 @@ func (c *PolyCtx) of(v ssa.Value) Poly {
 			return polySym(p)
 		}
 	case *ssa.Phi:
+		// analysed for one call (constant arguments): the one way in that can run
+		if c.res != nil && c.res.fn == x.Parent() {
+			live := -1
+			n := 0
+			for i := range x.Edges {
+				if c.res.EdgeExecutable(x.Block().Preds[i], x.Block()) {
+					live = i
+					n++
+				}
+			}
+			if n == 1 {
+				return c.Of(x.Edges[live])
+			}
+		}
 		// a phi whose edges are all congruent is that value.  While the edges are evaluated
 		// the phi already answers with its final opaque name, so that loop-carried
 		// definitions (i = phi(0, i+1)) are expressed over it.
